@@ -94,8 +94,18 @@ where
     }
 
     fn split_into_parameters(&self) -> BTreeMap<String, String> {
+        // Remove comments. For pipelines this is already done by split_into_steps,
+        // but a single step definition arrives here with its comments intact
+        let step: String = self
+            .as_ref()
+            .replace('\r', "\n")
+            .lines()
+            .map(|line| line.split('#').next().unwrap_or_default())
+            .collect::<Vec<_>>()
+            .join("\n");
+
         // Remove non-significant whitespace
-        let step = self.as_ref().normalize();
+        let step = step.normalize();
         let mut params = BTreeMap::new();
         let mut elements: Vec<_> = step.split_whitespace().collect();
         if elements.is_empty() {
